@@ -11,6 +11,7 @@ import SV.Proofs.C01
 import SV.Proofs.C01Regex
 import SV.Proofs.C01Merge
 import SV.Proofs.C01Body
+import SV.Proofs.C01Prune
 
 namespace SV.Props.C01
 open SV SV.Model.C01 SV.Spec.JsonSchema SV.Spec.C01 SV.Proofs.C01
@@ -444,5 +445,39 @@ example :
   decide
 
 end Body
+
+/-! ### pruning at the reference-depth limit (`remove_optional_references.clean_properties`) -/
+
+namespace Prune
+open SV.Model.C01Prune
+
+/-- **Pruning only narrows (repaired).**  For every object level, every set of properties (with or without references, with
+    or without single-member combinators), every `required` list, `additionalProperties` allowed or not, and every
+    instance: what the pruned schema accepts, the original accepts — so positive data generated below the depth limit
+    conforms at this level.  Hypothesis (the recorded finding FC01c): no *required* property is a single-member
+    combinator over a reference. -/
+theorem prune_narrows_repaired (s : ObjSchema) (o : Inst)
+    (hres : ∀ p, p ∈ s.props → p.singleComb = true → s.required.contains p.name = false)
+    (h : validPruned .repaired s o = true) : validOrig s o = true :=
+  SV.Proofs.C01Prune.pruned_narrows s o hres h
+
+/-- as found (finding FC01b): deleting the definition of an optional reference property lets the generator emit that very
+    name with a value that does not conform -/
+theorem prune_asFound_full_false :
+    validPruned .asFound ⟨[⟨"", true, false⟩], [], true⟩ [("", false)] = true ∧
+    validOrig ⟨[⟨"", true, false⟩], [], true⟩ [("", false)] = false ∧
+    validPruned .repaired ⟨[⟨"", true, false⟩], [], true⟩ [("", false)] = false := by decide
+
+/-- the hypothesis of `prune_narrows_repaired` is needed (finding FC01c, not repaired): a required `allOf: [{$ref}]`
+    property is still dropped -/
+theorem prune_required_combinator_full_false :
+    validPruned .repaired ⟨[⟨"x", false, true⟩], ["x"], true⟩ [("x", false)] = true ∧
+    validOrig ⟨[⟨"x", false, true⟩], ["x"], true⟩ [("x", false)] = false := by decide
+
+/-- non-vacuity: an object with a kept, a forbidden and an undeclared property -/
+example : validPruned .repaired ⟨[⟨"a", false, false⟩, ⟨"b", true, false⟩], ["a"], true⟩ [("a", true), ("z", false)] = true ∧
+    validOrig ⟨[⟨"a", false, false⟩, ⟨"b", true, false⟩], ["a"], true⟩ [("a", true), ("z", false)] = true := by decide
+
+end Prune
 
 end SV.Props.C01
